@@ -70,6 +70,7 @@ type comp struct {
 	entries  []entry
 	down     bool
 	failure  string // how the last start-up failed: "panic" or "error" (Replay returned an error)
+	workers  int    // number of real index workers (indexing mode)
 	indexing bool   // run the real index workers instead of draining the tasks
 	gray     bool   // the meta file holds a length field whose allocation outcome depends on the machine: history abandoned
 	limiter  *disk.ReadLimiter
@@ -119,7 +120,7 @@ func (c *comp) restart() {
 	c.mu.Lock()
 	c.entries = nil
 	c.mu.Unlock()
-	c.ai = frac.NewActiveIndexer(1, 64)
+	c.ai = frac.NewActiveIndexer(max(1, c.workers), 64)
 	c.drained = make(chan struct{})
 	if c.indexing {
 		c.ai.Start()
@@ -416,8 +417,12 @@ func (c *comp) observeIndex(ids []seq.ID, toks []string) string {
 	return fmt.Sprintf("ok blocks=%s pos=%s fetch=%s search=%s", vh.JoinInts(c.a.DocBlocks.GetVals()), vh.JoinStrs(pos, ";"), vh.JoinStrs(fet, ";"), vh.JoinStrs(sr, ";"))
 }
 
-func chanIndex(o vh.Opts, rng *vh.RNG, fix bool) *vh.Channel {
-	ch := vh.NewChannel("index", "history of bulks / crashes / restarts over uncompressed blocks (PackDocBlock) built by frac.DocProvider from random "+
+func chanIndex(o vh.Opts, rng *vh.RNG, fix bool, workers int) *vh.Channel {
+	name, cmdName := "index", "index"
+	if workers > 1 {
+		name, cmdName = "index.k", "index.k"
+	}
+	ch := vh.NewChannel(name, fmt.Sprintf("[%d index worker(s); with more than one the IDs are distinct and only the sorted DocBlocks, the fetched bytes and the search results are compared] ", workers)+"history of bulks / crashes / restarts over uncompressed blocks (PackDocBlock) built by frac.DocProvider from random "+
 		"documents (1-3 per bulk, IDs from a small pool so that re-delivered and clashing IDs occur, 1-3 tokens each), executed by the real "+
 		"frac.Active with one real index worker; compared with buildIndex/fetch/search of the model: DocBlocks, DocsPositions of every ID ever "+
 		"used, the bytes Fetch returns per ID, the IDs Search returns per token. Non-trivial: some document is served after a restart or crash")
@@ -428,9 +433,10 @@ func chanIndex(o vh.Opts, rng *vh.RNG, fix bool) *vh.Channel {
 	toks := []string{"service:a", "service:b", "level:1"}
 	for i := 0; i < o.Pick(150, 2500); i++ {
 		c := newComp()
-		c.indexing = true
+		c.indexing, c.workers = true, workers
 		c.restart()
 		var evs []string
+		nextID := 0
 		used := map[seq.ID]bool{}
 		var ids []seq.ID
 		wrote, nt := false, false
@@ -445,6 +451,10 @@ func chanIndex(o vh.Opts, rng *vh.RNG, fix bool) *vh.Channel {
 			var ds []ldoc
 			for k, m := 0, rng.Range(1, 3); k < m; k++ {
 				id := seq.ID{MID: seq.MID(1000 + rng.Intn(8)), RID: seq.RID(rng.Intn(2))}
+				if workers > 1 { // re-delivered IDs race between workers (first-wins): distinct IDs only
+					id = seq.ID{MID: seq.MID(1000 + nextID%5), RID: seq.RID(nextID)}
+					nextID++
+				}
 				if !used[id] {
 					used[id] = true
 					ids = append(ids, id)
@@ -485,11 +495,17 @@ func chanIndex(o vh.Opts, rng *vh.RNG, fix bool) *vh.Channel {
 		}
 		impl := c.observeIndex(ids, toks)
 		c.close()
+		if workers > 1 && strings.HasPrefix(impl, "ok blocks=") { // drop the positions, sort the block offsets
+			f := strings.Fields(impl)
+			bl := parseInts(strings.TrimPrefix(f[1], "blocks="))
+			sort.Ints(bl)
+			impl = fmt.Sprintf("ok blocks=%s %s %s", vh.JoinInts(bl), f[3], f[4])
+		}
 		if impl == "" || len(ids) == 0 {
 			ch.Tag("skipped")
 			continue
 		}
-		ch.Add(fmt.Sprintf("index %s %s %s %s", vh.B(fix), vh.JoinStrs(evs, ";"), strings.Join(idStrs, ";"), strings.Join(tokHex, ";")), impl,
+		ch.Add(fmt.Sprintf("%s %s %s %s %s", cmdName, vh.B(fix), vh.JoinStrs(evs, ";"), strings.Join(idStrs, ";"), strings.Join(tokHex, ";")), impl,
 			nt && strings.Contains(impl, "fetch=") && !strings.Contains(impl, "blocks=- "), fmt.Sprintf("events=%d", len(evs)), fmt.Sprintf("ids=%d", len(ids)))
 	}
 	return ch
@@ -1509,6 +1525,144 @@ func oracleGroupCommit(o vh.Opts, rng *vh.RNG, rep *vh.Report) *vh.Oracle {
 	return or
 }
 
+// ------------------------------------------------------------------ channel fw.trace: logged traces of the real FileWriter are paths of SV.FWr
+
+type traceFile struct {
+	mu        *sync.Mutex // guards log: one total order of all observed steps
+	log       *[]string
+	wrote     map[int64]int64 // offset -> len of every WriteAt seen
+	failed    map[int64]bool
+	nsync     int
+	failEvery int
+}
+
+func (f *traceFile) WriteAt(p []byte, off int64) (int, error) {
+	runtime.Gosched()
+	f.mu.Lock()
+	f.wrote[off] = int64(len(p))
+	fail := p[0] == 1
+	f.failed[off] = fail
+	f.mu.Unlock()
+	if fail {
+		return 0, fmt.Errorf("scripted write error")
+	}
+	return len(p), nil
+}
+
+func (f *traceFile) Sync() error {
+	f.mu.Lock()
+	*f.log = append(*f.log, "b")
+	f.nsync++
+	fail := f.failEvery > 0 && f.nsync%f.failEvery == 0
+	f.mu.Unlock()
+	runtime.Gosched()
+	f.mu.Lock()
+	*f.log = append(*f.log, "e"+vh.B(!fail))
+	f.mu.Unlock()
+	if fail {
+		return fmt.Errorf("scripted fsync error")
+	}
+	return nil
+}
+
+func chanFwTrace(o vh.Opts, rng *vh.RNG) *vh.Channel {
+	ch := vh.NewChannel("fw.trace", "trace validation: g goroutines x w writes on the real frac.FileWriter over a fake file (scripted WriteAt and "+
+		"fsync errors); every step is logged in one total order through the fw.* verif points (writeat, enqueue and take inside fs.mu, notify "+
+		"before the channel send, wake, synced) and the fake's Sync begin/end; `reserve` steps are placed before the first write at or above "+
+		"their offset (the atomic counter hands offsets out in ascending order); the driver checks that the logged trace is a path of the Lean "+
+		"transition system SV.FWr, about whose paths c01_filewriter_* are proved. Schedules differ from run to run; counts do not. "+
+		"Non-trivial: g >= 2")
+	for i := 0; i < o.Pick(40, 400); i++ {
+		g, w := rng.Range(1, 8), rng.Range(1, 12)
+		start := int64(rng.Intn(1000))
+		datas := make([][][]byte, g)
+		for a := range datas {
+			for b := 0; b < w; b++ {
+				d := make([]byte, rng.Range(1, 64))
+				if rng.Chance(1, 12) {
+					d[0] = 1 // this WriteAt fails
+				}
+				datas[a] = append(datas[a], d)
+			}
+		}
+		var mu sync.Mutex
+		var log []string
+		tf := &traceFile{mu: &mu, log: &log, wrote: map[int64]int64{}, failed: map[int64]bool{}, failEvery: []int{0, 0, 3, 5}[rng.Intn(4)]}
+		add := func(s string) { mu.Lock(); log = append(log, s); mu.Unlock() }
+		verifhook.Set(func(name, _ string, a []int64) {
+			switch name {
+			case "fw.writeat":
+				mu.Lock()
+				log = append(log, fmt.Sprintf("w%d:%s", a[0], vh.B(!tf.failed[a[0]])))
+				mu.Unlock()
+			case "fw.enqueue":
+				add(fmt.Sprintf("q%d:%d", a[0], a[1]))
+			case "fw.notify":
+				add(fmt.Sprintf("n%d", a[0]))
+			case "fw.wake":
+				add("k")
+			case "fw.take":
+				add(fmt.Sprintf("t%d", a[0]))
+			case "fw.synced":
+				add(fmt.Sprintf("x%d:?", a[0]))
+			}
+		})
+		fw := frac.NewFileWriter(tf, start, false)
+		var resMu sync.Mutex
+		result := map[int64]bool{}
+		var wg sync.WaitGroup
+		for a := 0; a < g; a++ {
+			wg.Add(1)
+			go func(a int) {
+				defer wg.Done()
+				for _, d := range datas[a] {
+					off, err := fw.Write(d, stopwatch.New())
+					if d[0] != 1 {
+						resMu.Lock()
+						result[off] = err == nil
+						resMu.Unlock()
+					}
+				}
+			}(a)
+		}
+		wg.Wait()
+		fw.Stop()
+		verifhook.Set(nil)
+		// resolve the returned results, insert the reserve steps
+		var offs []int64
+		for off := range tf.wrote {
+			offs = append(offs, off)
+		}
+		sort.Slice(offs, func(x, y int) bool { return offs[x] < offs[y] })
+		next, rets := 0, 0
+		var tr []string
+		for _, l := range log {
+			if l[0] == 'w' {
+				var off int64
+				fmt.Sscanf(l, "w%d:", &off)
+				for next < len(offs) && offs[next] <= off {
+					tr = append(tr, fmt.Sprintf("r%d:%d", offs[next], tf.wrote[offs[next]]))
+					next++
+				}
+			}
+			if l[0] == 'x' {
+				var off int64
+				fmt.Sscanf(l, "x%d:", &off)
+				l = fmt.Sprintf("x%d:%s", off, vh.B(result[off]))
+				rets++
+			}
+			tr = append(tr, l)
+		}
+		end := start
+		for _, off := range offs {
+			end = max(end, off+tf.wrote[off])
+		}
+		ch.Add(fmt.Sprintf("fw.check %d %s", start, strings.Join(tr, ",")), fmt.Sprintf("ok path rets=%d syncs=%d end=%d", rets, tf.nsync, end),
+			g >= 2, fmt.Sprintf("goroutines=%d", g))
+	}
+	return ch
+}
+
 // ------------------------------------------------------------------ main
 
 func main() {
@@ -1543,8 +1697,14 @@ func main() {
 			rep.AddChannel(chanRun(o, rng.Fork(), fix), o.Driver)
 		}
 		if o.Only == "" || o.Only == "index" {
-			rep.AddChannel(chanIndex(o, rng.Fork(), fix), o.Driver)
+			rep.AddChannel(chanIndex(o, rng.Fork(), fix, 1), o.Driver)
 		}
+		if o.Only == "" || o.Only == "index.k" {
+			rep.AddChannel(chanIndex(o, rng.Fork(), fix, 4), o.Driver)
+		}
+	}
+	if (o.Only == "" && o.Replay == "") || o.Only == "fw.trace" {
+		rep.AddChannel(chanFwTrace(o, rng.Fork()), o.Driver)
 	}
 	if (o.Only == "" && o.Replay == "") || o.Only == "fw.groupcommit" || hasPrefix(replayOps, "fw ") {
 		rep.AddOracle(oracleGroupCommit(o, rng.Fork(), rep))
